@@ -214,6 +214,18 @@ def _mapping_kind(v: ast.AST):
             return ("data",)
         if all(isinstance(k, ast.Constant) for k in v.keys):
             return ("const",)
+        if all(k is None for k in v.keys):
+            kinds = [_mapping_kind(x) for x in v.values]
+            if all(k is not None for k in kinds) and len({k[0] for k in kinds}) == 1:
+                return kinds[0]
+            return None
+        if len(v.keys) == 1:
+            # one-iteration form of a loop-/comprehension-built mapping
+            k, val = v.keys[0], v.values[0]
+            if isinstance(val, ast.Call) and isinstance(val.func, ast.Subscript) and "data_functions" in dump(val.func.value):
+                return ("data",)
+            if isinstance(k, ast.JoinedStr) and isinstance(val, ast.Subscript) and any(isinstance(x, ast.FormattedValue) and dump(x.value) == dump(val.slice) for x in k.values):
+                return _mapping_kind(val.value)  # renaming {f'{k}_suffix': M[k]} over the keys of M
     if isinstance(v, ast.IfExp):
         return _mapping_kind(v.body) or _mapping_kind(v.orelse)
     if isinstance(v, ast.Call) and dump(v.func) == "__store__" and len(v.args) == 3:
@@ -225,6 +237,21 @@ def _mapping_kind(v: ast.AST):
     return None
 
 
+def _data_entries(expr):
+    """(key, value call) of every `{k: <data_functions>[..](..)}` entry inside expr"""
+    out = []
+    for n in ast.walk(expr):
+        if isinstance(n, ast.Dict):
+            for k, v in zip(n.keys, n.values):
+                if k is not None and isinstance(v, ast.Call) and isinstance(v.func, ast.Subscript) and "data_functions" in dump(v.func.value):
+                    out.append((k, v))
+        if isinstance(n, ast.Call) and dump(n.func) == "__store__" and len(n.args) == 3:
+            v = n.args[2]
+            if isinstance(v, ast.Call) and isinstance(v.func, ast.Subscript) and "data_functions" in dump(v.func.value):
+                out.append((n.args[1], v))
+    return out
+
+
 def r3b_data_loop(repo: Repo, rep):
     R = rep.rule("R-C04-3b", "data dictionary: data[fun] = self.<data_functions>[fun](coordinates) for every fun of the same mapping, key == subscript", floor=6,
                  why="a data function stored under another name, or skipped, reaches the residual under the wrong argument")
@@ -234,19 +261,21 @@ def r3b_data_loop(repo: Repo, rep):
         if fi is None:
             continue
         rep.saw(fi)
-        loops = [l for l in ast.walk(fi.node) if isinstance(l, ast.For) and "data_functions" in dump(l.iter)]
-        if not loops:
-            rep.violation(R, fi.site(), fi.fq, "the data functions are evaluated", "no loop over the data functions", "no data loop")
-            continue
-        for l in loops:
-            it = dump(l.iter)
-            v = dump(l.target)
-            stores = [s for s in l.body if isinstance(s, ast.Assign) and isinstance(s.targets[0], ast.Subscript)]
-            good = len(stores) == 1 and len(l.body) == 1
-            if good:
-                s = stores[0]
-                good = dump(s.targets[0].slice) == v and isinstance(s.value, ast.Call) and isinstance(s.value.func, ast.Subscript) and dump(s.value.func.value) == it and dump(s.value.func.slice) == v
-            rep.check(R, good, fi.site(l), fi.fq, f"for {v} in {it}: data[{v}] = {it}[{v}](coords)", dump(l)[:120].replace("\n", " "), dump(l)[:160])
+        for p in paths(fi.node, track_stores=True):
+            if p.ret is RAISE or p.ret is None:
+                continue
+            res = [c for c in _calls(p.ret) if dump(c.func) == "self.residual_fn"]
+            if not res or not res[0].args:
+                continue  # R-C04-4 reports the missing composition
+            entries = _data_entries(res[0].args[0])
+            if not entries:
+                rep.violation(R, fi.site(p.ret_node), fi.fq, "the data functions are evaluated and passed to the residual", "no entry `name: data_function(coords)` in the residual argument", "no data entries")
+                continue
+            for k, v in entries:
+                key, idx, mp = dump(k), dump(v.func.slice), dump(v.func.value)
+                over = getattr(v, "_iter_src", None) or (p.loopvars.get(key) if isinstance(k, ast.Name) else None)
+                good = key == idx and over is not None and dump(over) in (mp, f"{mp}.keys()", f"{mp}.items()")
+                rep.check(R, good, fi.site(p.ret_node), fi.fq, f"for f in {mp}: data[f] = {mp}[f](coords)", f"data[{key}] = {mp}[{idx}](..), {key} over {dump(over)}", f"data[{key}] = {mp}[{idx}] over {dump(over)}")
 
 
 REDUCTIONS = {
